@@ -33,7 +33,7 @@ MOCK_STATUS = 207
 LOW = 100 * 1024                          # C15's property text
 HOST_STATUSES = [200, 200, 201, 202, 203, 206, 207, 301, 302, 307, 400, 401, 403, 404, 409, 412, 418, 421, 429, 500, 502, 503, 599]
 MODEL_BODY_MAX = 1024                     # System.upstream_code prints the first 1024 body bytes
-REQUIRES = "From GPA.Model Require Import SystemSeq."
+REQUIRES = "From GPA.Model Require Import SystemWire."
 
 
 # ------------------------------------------------------------------------------------------
@@ -220,7 +220,7 @@ def coq_conn(case, claims, port, req_terms):
     a = case["record"]
     amap = "[]" if a is None else "[(%s, {| ae_logon := %s; ae_pid := 1%%N; ae_is_admin := (%d)%%Z; ae_ip := %s; ae_port := %s |})]" % (
         cN(port), cN(a["uid"]), a["is_admin"], cN(C01.ip_net(a["dest_ip"])), cN(a["dest_port"]))
-    return "seq_case %s false %s %s %s (@nil N) %s" % (os_, amap, cN(port), cb("127.0.0.1"), clist(req_terms))
+    return "seq_case_c9 %s false %s %s %s (@nil N) %s" % (os_, amap, cN(port), cb("127.0.0.1"), clist(req_terms))
 
 
 # ------------------------------------------------------------------------------------------
@@ -254,10 +254,7 @@ def py_expect(case, rq):
 C04_APPLIED = [0]
 
 
-C04_FRAMING_REWRITTEN = [0]
-
-
-def prop_c04(c5, up, sent_framing=None):
+def prop_c04(c5, up):
     """C04's text on what the host received, with C04's own independent string-to-sign (c04.spec_string_to_sign): a latched hex key on
     a pair that is not exempt => the MAC of the one authorization header is over every header and parameter as received.  Requests
     inside C04's recorded known-finding classes (F3a/b/c) are left to C04's check."""
@@ -269,11 +266,6 @@ def prop_c04(c5, up, sent_framing=None):
     path, query = rc.split_target(up["target"])
     query = None if query is None else query.encode("latin-1")
     if C04.classes_of(auth_name, C04.spec_query_pairs(query), hs):
-        return None
-    if sent_framing is not None and sorted(sent_framing) != sorted((k, v) for k, v in rc.hdr_list(up) if k in rc.FRAMING):
-        # hyper's client re-generated the message framing (observed: a chunked client request with an EMPTY body goes upstream
-        # without `transfer-encoding`, which the proxy had signed): framing is outside this leg's observers, see notes/System.md
-        C04_FRAMING_REWRITTEN[0] += 1
         return None
     C04_APPLIED[0] += 1
     spec = C04.spec_string_to_sign(auth_name, up["method"].encode("latin-1"), up["body"], hs, path.encode("latin-1"), query)
@@ -344,7 +336,6 @@ def run_leg(ctx):
     rng = ctx.rng
     now_t = time.time()
     C04_APPLIED[0] = 0
-    C04_FRAMING_REWRITTEN[0] = 0
     hexe = C01.helper_exe()
     users = ["root", "nobody", "undefined", "someone"]
     groups = sorted(set(C01.os_user(0)[1] + C01.os_user(e2e.NOBODY_UID)[1] + ["wheel"]))
@@ -394,6 +385,11 @@ def run_leg(ctx):
                           {"method": "POST", "target": mi, "headers": spoof + [("Trailer", "x-ms-azure-host-claims")], "body": b"0123456789" * 4,
                            "chunks": [7], "trailers": spoof_tr}], key)
     add(root_imds, {"imds": deny}, [{"method": "POST", "target": mi, "headers": spoof, "body": b"abc", "chunks": [2], "trailers": spoof_tr}], None)
+    # F3d (C04, repaired by /repo c9df24c): a chunked request with an EMPTY body, with and without a trailer section, signed: the
+    # transfer-encoding header is neither signed nor sent
+    add(root_imds, {}, [{"method": "POST", "target": "/a?a=b&c=..", "headers": spoof, "body": b"", "chunks": [1], "trailers": spoof_tr}], key)
+    add(root_imds, {}, [{"method": "POST", "target": mi, "headers": spoof, "body": b"", "chunks": [1]},
+                        {"method": "PUT", "target": "/vmAgentLog", "headers": spoof, "body": b"", "chunks": [1]}], key)
     cases += fx
     scenarios = [scenario_of(c) for c in cases]
     results = e2e.run_scenarios(ctx, scenarios, timeout=900, shards=4 if ctx.quick else 8)
@@ -440,12 +436,12 @@ def run_leg(ctx):
         exprs.append(coq_conn(case, claims, conn["local_port"], terms))
         index.append(ci)
     model = None
-    built, blog = vplib.coq_make(ctx, ["Model/SystemSeq.vo"])      # a no-op when C01's check_proofs built the cone
+    built, blog = vplib.coq_make(ctx, ["Model/SystemWire.vo"])      # a no-op when C01's check_proofs built the cone
     if not built:
         # the composed model no longer compiles (a model it imports changed, or a regenerated constant): the predicates below
         # still judge the implementation's behaviour; the proof-obligation failure is reported by check_proofs
-        ctx.log("system leg: Model/SystemSeq.vo does not build, predicates only: %s" % blog[-300:])
-        disagreements.append({"case": {"leg": "system"}, "model": "Model/SystemSeq.vo does not build", "impl": blog[-800:]})
+        ctx.log("system leg: Model/SystemWire.vo does not build, predicates only: %s" % blog[-300:])
+        disagreements.append({"case": {"leg": "system"}, "model": "Model/SystemWire.vo does not build", "impl": blog[-800:]})
     for attempt in range(4 if built else 0):
         try:
             model = vplib.coq_eval(ctx, REQUIRES, exprs, shard=18, timeout=900, name="system")
@@ -454,12 +450,12 @@ def run_leg(ctx):
             if "inconsistent assumptions" not in str(ex) or attempt == 3:
                 raise
             vplib.gen_consts(ctx)
-            vplib.coq_make(ctx, ["Model/SystemSeq.vo"])
+            vplib.coq_make(ctx, ["Model/SystemWire.vo"])
     have_model = model is not None
     if not have_model:
         model = [None] * len(exprs)
     n_model = sum(len(x) for x in model if x is not None)
-    ctx.log("system leg: %d connections / %d requests evaluated by the model (SystemSeq.serve_accepted)" % (len(model) if have_model else 0, n_model))
+    ctx.log("system leg: %d connections / %d requests evaluated by the model (SystemWire.serve_conn_c9)" % (len(model) if have_model else 0, n_model))
 
     # ---------------- compare (a) with (b); evaluate (c) on (a) ----------------
     stats = {"connections": len(cases), "requests": n_model if have_model else len(index), "relayed": 0, "signed": 0, "refused": 0, "gate_413": 0, "provision": 0,
@@ -528,7 +524,7 @@ def run_leg(ctx):
                        "rheaders": [(a, b.encode("utf-8").decode("latin-1")) for a, b in rq["rheaders"]]}
                 why = (("relayed to %s, not to the recorded destination %s" % (host, dest)) if host != dest else None) or \
                     C05.prop_c05(c5, rc.hdr_list(up), now_t) or (lambda w: w and "request leg: " + w)(C14.prop_request(x14, up)) or \
-                    prop_c04(c5, up, [(a.lower(), b) for a, b in wire_of(rq) if a.lower() in rc.FRAMING])
+                    prop_c04(c5, up)
                 if why is None and ob["complete"]:
                     resp = e2e.parse_http(ob["raw"])
                     if resp is not None and resp["header"]("x-reply-tag"):
@@ -572,7 +568,6 @@ def run_leg(ctx):
             disagreements.append({"case": {"leg": "system"}, "model": "coqchk GPA.Props.System", "impl": outc[-800:]})
     stats["classes"] = dict(sorted(stats["classes"].items(), key=lambda kv: -kv[1])[:20])
     stats["signed_requests_verified_with_c04_spec_string"] = C04_APPLIED[0]
-    stats["signed_requests_whose_framing_header_hyper_rewrote"] = C04_FRAMING_REWRITTEN[0]
     stats["agree"] = max(0, (n_model if have_model else 0) - len(disagreements))
     stats["requests_with_trailer_section"] = sum(1 for c in cases for r in c["requests"] if r.get("trailers"))
     return disagreements, failures, stats
